@@ -341,7 +341,7 @@ func init() {
 				// (a stage triggers for its duration less 20 ms and then pauses for 20 ms: 180-200 ms here; the
 				// deadline that stops triggering is max-duration less 10 ms)
 				st := "- duration: 200ms\n  mode: constant\n  rate: 1/20ms\n  parameters:\n    VERIF_C05_STAGE: first\n- duration: 4s\n  mode: users\n  parameters:\n    VERIF_C05_STAGE: second\n"
-				d := 194 + r.IntN(12)
+				d := 198 + r.IntN(5)
 				p.Spec = engine.Spec{Mode: "file", YAML: c05FileYAML(c, fmt.Sprintf("%dms", d), 0, st)}
 				p.Spec.MaxDurationMS, p.Spec.IgnoreDropped, p.Spec.CompletionMS = d, true, 300
 				p.Desc = fmt.Sprintf("mode=file(constant 200ms, users 4s) c=%d ending=duration(%dms: in the pause between the stages) blocking=none completion=300ms", c, d)
@@ -554,6 +554,8 @@ func c05RunOnce(c *core.Case, o *core.Outcome, p c05Params) {
 		e.cancel()
 	}
 	done := make(chan *engine.Run, 1)
+	stopWatch := hiccupsUntil(e.l.Now)
+	defer stopWatch(0)
 	go func() { done <- engine.Execute(e.ctx, p.Spec, e.l, scenario, hooks, nil) }()
 	if p.Ending == "cancel-out" {
 		go func() {
@@ -716,6 +718,11 @@ func c05RunOnce(c *core.Case, o *core.Outcome, p c05Params) {
 	if strings.Contains(p.Desc, "in the pause between the stages") {
 		for _, ev := range e.l.Events() {
 			if ev.Kind == "body.start" && ev.S == "second" {
+				if worstHiccup := stopWatch(ev.T); worstHiccup > 4*time.Millisecond {
+					// the deadline is a timer like any other: fired late, it lets the next stage begin
+					o.Inconc("timers of this process fired up to %v late during the run; the second stage is due 8-12 ms after the deadline (%s)", worstHiccup, p.Desc)
+					return
+				}
 				viol("stage-started-after-deadline", "triggering stopped %v after it began, in the pause after the first stage; iteration %s nevertheless ran with the second stage's parameters (%v after the run began): a stage was started after the run had stopped requesting iterations", deadlineRem, ev.ID, ev.T)
 				return
 			}
